@@ -175,6 +175,10 @@ def run_rules(pid, tier, seed, fams, per_family_quick, level_rule, assumptions, 
         if pid == "C09":      # the complex convention: only configurations with a complex operand or a complex result
             allc = [c for c in allc if c["kind"] != "rr" or fam == "fft"]
         chosen = stratified(allc, per_family_quick if quick else None, rng)
+        if quick:
+            chosen = [dict(c, dk=seed % 7) for c in chosen]
+        else:      # thorough: every configuration at two different generic points
+            chosen = [dict(c, dk=dk) for c in chosen for dk in (seed % 7, 3 + seed % 5)]
         notes.append({"family": fam, "kinds": kinds, "configurations_enumerated_by_tlc": len(allc), "replayed": len(chosen)})
         cfgs += chosen
     for i, c in enumerate(cfgs):
